@@ -196,6 +196,26 @@ pub fn rt_case_any(protos: &'static [Proto]) -> BoxedStrategy<RtCase> {
   (any::<u16>(), any::<u16>()).prop_flat_map(move |(p, l)| rt_case(protos[pick(p, protos.len())], Layer::ALL[pick(l, 3)])).boxed()
 }
 
+/// every message length 0..=max (exhaustive), with footer and assertion lengths cycling through 0..=40 independently
+pub fn dense_sweep(proto: Proto, layer: Layer, max: u32) -> Vec<RtCase> {
+  let mut out = vec![];
+  for len in 0..=max {
+    let i = len as usize;
+    let key_seed: Vec<u8> = (0..32).map(|j| (j as u8).wrapping_mul(59).wrapping_add(len as u8).wrapping_add((len >> 8) as u8)).collect();
+    let nonce: Vec<u8> = (0..if proto == Proto::V2L { 24 } else { 32 }).map(|j| (j as u8).wrapping_mul(23).wrapping_add((len * 7) as u8)).collect();
+    out.push(RtCase {
+      proto,
+      layer,
+      key_seed,
+      nonce,
+      msg: Text::Sized(len, (i % 4) as u8),
+      footer: match i % 5 { 0 => None, 1 => Some(Text::Lit(String::new())), _ => Some(Text::Sized((i % 41) as u32, ((i / 5) % 4) as u8)) },
+      assertion: if proto.has_assertion() { match i % 3 { 0 => None, _ => Some(Text::Sized(((i * 3) % 43) as u32, ((i / 3) % 4) as u8)) } } else { None },
+    });
+  }
+  out
+}
+
 /// deterministic sweep: every boundary length x {no footer, footer} (x assertion for v3/v4) for one (protocol, layer)
 pub fn boundary_sweep(proto: Proto, layer: Layer, max_len: u32) -> Vec<RtCase> {
   let mut out = vec![];
